@@ -102,30 +102,4 @@ mod verif_kani {
         kani::cover!(n < o);
         core::mem::forget(c);
     }
-
-    /// Two messages with non-decreasing timestamps come out in sending order (real BinaryHeap).
-    #[kani::proof]
-    #[kani::unwind(11)]
-    fn vk_u14_fifo_two() {
-        let mut c = conditioner();
-        let o1: u8 = kani::any();
-        let o2: u8 = kani::any();
-        kani::assume(o1 <= o2);
-        c.insert(None, base() + Duration::from_millis(o1 as u64), 1, Bytes::new());
-        c.insert(None, base() + Duration::from_millis(o2 as u64), 2, Bytes::new());
-        let now = base() + Duration::from_millis(o2 as u64);
-        let m1 = c.pop(now);
-        let m2 = c.pop(now);
-        let m3 = c.pop(now);
-        assert!(m3.is_none());
-        match (m1, m2) {
-            (Some((c1, p1)), Some((c2, p2))) => {
-                assert!(c1 == 1 && c2 == 2);
-                core::mem::forget((p1, p2));
-            }
-            _ => assert!(false, "every queued message that is due must be delivered exactly once"),
-        }
-        kani::cover!(o1 == o2);
-        core::mem::forget(c);
-    }
 }
